@@ -32,7 +32,7 @@ NOT_DECIDED = ["equality of coordinates within the format's precision (numerical
                "value ranges against field widths (overflow)", "gro time regex vs the %s spelling of floats"]
 ASSUMPTIONS = ["in_units_of(q, a, b) converts from a to b and is the only unit conversion used at the file boundary",
                "the format specifications fix: xtc/trr/gro/h5/lh5 nm; dcd/netcdf/rst7/ncrst/mdcrd/xyz/lammpstrj(real)/pdb/dtr/arc angstrom"]
-FLOORS = {"C01-R8": 46, "C01-R1": 50, "C01-R2": 60, "C01-R3": 20, "C01-R4": 25, "C01-R5": 25, "C01-R6": 8, "C01-R7": 6}
+FLOORS = {"C01-R8": 54, "C01-R1": 50, "C01-R2": 60, "C01-R3": 20, "C01-R4": 9, "C01-R5": 25, "C01-R6": 8, "C01-R7": 6}
 
 TRAJ = "mdtraj/core/trajectory.py"
 WRITABLE = [".h5", ".xtc", ".trr", ".dcd", ".nc", ".netcdf", ".ncdf", ".mdcrd", ".crd", ".xyz", ".xyz.gz", ".lammpstrj", ".gro",
@@ -87,6 +87,7 @@ def check(ctx):
     r4_overflow(ctx)
     r4_box_lookahead(ctx)
     r8_text_round_trip(ctx)
+    r8_pdb(ctx)
     r2_fields_unconditional(ctx)
     ctx.rule("C01-R8", "text formats (xyz, mdcrd, lammpstrj, gro): write() and read() of the file class both evaluated - what is read back from the text written is what went in (coordinates, cell, time), laid out as the format tables say")
     ctx.rule("C01-R6", "in `for i in range(self.n_frames)` loops of savers every per-frame argument of f.write is subscripted by the loop variable")
@@ -308,94 +309,11 @@ def _match_slices(ctx, rule, rel, q, spans, slices, what, anchor):
 
 
 def _r4(ctx):
-    # ---- PDB ATOM ----------------------------------------------------------------------------------
+    """fixed-width records.  The column layout of the PDB, mdcrd, gro and rst7 records and the way their readers cut them is decided by value in R8
+    (writer and reader both evaluated); here: the CRYST1 record is written exactly when a complete cell is given."""
     rel = "mdtraj/formats/pdb/pdbfile.py"
-    wfn = ctx.py.func(rel, "PDBTrajectoryFile.write")
-    fmt = None
-    args = None
-    for n in walk_no_nested(wfn):
-        if isinstance(n, ast.BinOp) and isinstance(n.op, ast.Mod) and isinstance(const(n.left), str) and const(n.left).startswith("ATOM"):
-            fmt, args = const(n.left), n.right
-    if fmt is None:
-        ctx.undecided("C01-R4", wfn, rel, "PDBTrajectoryFile.write", "ATOM format", "ATOM line format string not found")
-    else:
-        items = L.parse_percent(fmt)
-        elts = args.elts if isinstance(args, ast.Tuple) else []
-        dw = {}
-        fi = 0
-        f83 = ctx.py.func(rel, "_format_83")
-        w83 = 8 if all("%8.3f" in src(r) for r in walk_no_nested(f83) if isinstance(r, ast.Return)) else None
-        for it in items:
-            if it[0] == "field":
-                if it[1] is None and fi < len(elts):
-                    if isinstance(elts[fi], ast.Call) and call_name(elts[fi]) == "_format_83":
-                        dw[fi] = w83
-                fi += 1
-        sp = L.spans(items, dw)
-        if sp is None:
-            ctx.undecided("C01-R4", wfn, rel, "PDBTrajectoryFile.write", "ATOM format", "a field of the ATOM line has no determinable width")
-        else:
-            total = sp[-1]["end"]
-            ctx.decide(total == 80, "C01-R4", wfn, rel, "PDBTrajectoryFile.write", "ATOM line is 80 columns", "", "ATOM line is %d columns wide" % total)
-            srel = "mdtraj/formats/pdb/pdbstructure.py"
-            afn = ctx.py.func(srel, "Atom.__init__")
-            sl = [s for s in L.const_slices(afn, "pdb_line") if s[0] >= 6]
-            _match_slices(ctx, "C01-R4", srel, "Atom.__init__", sp, sl, "pdb_line", afn)
-            # published field table (PDB v3.3): x 31-38, y 39-46, z 47-54 (8.3); serial 7-11; resSeq 23-26
-            pub = {(30, 38): 3, (38, 46): 3, (46, 54): 3}
-            for (a, b), prec in pub.items():
-                f = [s for s in sp if s["kind"] == "field" and s["start"] == a and s["end"] == b]
-                ctx.decide(bool(f), "C01-R4", wfn, rel, "PDBTrajectoryFile.write", "coordinate field at columns %d-%d (8.3)" % (a + 1, b), "",
-                           "no 8-wide coordinate field at PDB columns %d-%d" % (a + 1, b))
-    # ---- CRYST1 -----------------------------------------------------------------------------------------
     hfn = ctx.py.func(rel, "PDBTrajectoryFile._write_header")
-    cfmt = None
-    for n in walk_no_nested(hfn):
-        if isinstance(n, ast.Constant) and isinstance(n.value, str) and n.value.startswith("CRYST1"):
-            cfmt = n.value
-    if cfmt is None:
-        ctx.undecided("C01-R4", hfn, rel, "PDBTrajectoryFile._write_header", "CRYST1 format", "not found")
-    else:
-        _cell_record_unconditional(ctx, rel, hfn)
-        sp = L.spans(L.parse_brace(cfmt))
-        srel = "mdtraj/formats/pdb/pdbstructure.py"
-        lfn = ctx.py.func(srel, "PdbStructure._load")
-        cr = None
-        for n in ast.walk(lfn):
-            if isinstance(n, ast.If) and "CRYST1" in src(n.test):
-                cr = n
-        if cr is None or sp is None:
-            ctx.undecided("C01-R4", lfn, srel, "PdbStructure._load", "CRYST1 reader", "not found")
-        else:
-            body = ast.Module(body=cr.body, type_ignores=[])
-            _match_slices(ctx, "C01-R4", srel, "PdbStructure._load", sp, L.const_slices(body, "pdb_line"), "CRYST1 pdb_line", cr)
-            precs = [s["prec"] for s in sp if s["kind"] == "field"]
-            widths = [s["end"] - s["start"] for s in sp if s["kind"] == "field"]
-            ctx.decide(widths == [9, 9, 9, 7, 7, 7] and precs == [3, 3, 3, 2, 2, 2], "C01-R4", hfn, rel, "PDBTrajectoryFile._write_header", "CRYST1 fields 9.3 x3, 7.2 x3", "",
-                       "CRYST1 fields are %s" % list(zip(widths, precs)))
-    # ---- mdcrd, gro: decided by value in R8 (writer and reader evaluated)
-    # ---- rst7 ----------------------------------------------------------------------------------------------
-    rel, cls = F.rel_cls("rst7")
-    w = F.method(ctx, "rst7", "write")
-    r = F.method(ctx, "rst7", "_parse")
-    # the template of one coordinate triple: left operand of `<template> % (x, y, z)` inside the per-atom loop, through locals
-    from ..pyfront import fold_str as _fold
-    fm = []
-    for lp in walk_no_nested(w):
-        if isinstance(lp, ast.For):
-            for n in ast.walk(lp):
-                if isinstance(n, ast.BinOp) and isinstance(n.op, ast.Mod):
-                    t = _fold(w, n.left)
-                    if isinstance(t, str) and "f" in t and t not in fm:
-                        fm.append(t)
-    sp = L.spans(L.parse_percent(fm[0] * 2)) if len(fm) == 1 else None
-    if sp is None:
-        ctx.undecided("C01-R4", w, rel, cls + ".write", "rst7 format", "fmt string not found")
-    else:
-        fields = [(s["end"] - s["start"], s["prec"]) for s in sp if s["kind"] == "field"]
-        ctx.decide(fields == [(12, 7)] * 6, "C01-R4", w, rel, cls + ".write", "6 x %12.7f per line", "", "restart coordinates are written as %s (AMBER specifies 6F12.7)" % fields)
-        _match_slices(ctx, "C01-R4", rel, cls + "._parse", sp, [s for s in L.comprehension_slices(r, "line") if "float" in src(ctx.py.mod(rel).parents.get(s[2]) or s[2])],
-                      "line", r)
+    _cell_record_unconditional(ctx, rel, hfn)
 
 
 def _r5(ctx):
@@ -881,3 +799,98 @@ def _r8_rst7(ctx, W, T, same):
             elif L is not None or A is not None:
                 why.append("a cell is read from a file written without one")
             ctx.decide(not why, "C01-R8", wfn, rel, q, desc, "", "; ".join(why))
+            if na == 4 and cell is True:
+                # AMBER: coordinates and box as 6F12.7
+                from ..tensym import FVal
+                ls, tail = T.lines(pieces)
+                from ..ttext import TText
+                num = [(sorted({p_.spec for p_ in l_ if isinstance(p_, FVal)}), TText(l_).total_width()) for l_ in ls[2:]]
+                ctx.decide(num == [(["12.7f"], 72)] * 3, "C01-R8", wfn, rel, q, "coordinates and box as 6F12.7 per line", "",
+                           "the numeric lines are laid out as %s (AMBER specifies 6F12.7: 72 columns of 12.7f fields)" % (num,))
+
+
+def r8_pdb(ctx):
+    """PDB: PDBTrajectoryFile.write (header, MODEL / ATOM / TER / ENDMDL records) evaluated on symbolic positions and a two-chain model topology with
+    the `print` calls recorded; PdbStructure._load - with Atom.__init__ run from its source on every ATOM line - evaluated on the lines printed
+    (sa/writers.py).  By value: every model and atom comes back with the position, names, numbers, chain letter and element written; the CRYST1 record
+    carries the cell; the records sit in the columns of the published PDB tables."""
+    from .. import writers as W, textio as T
+    from ..tensym import Raised, Ten, FVal
+    from ..ttext import TText, width as pwidth
+    from ..pysym import Unsupported as PUnsupported
+    from ..poly import Poly, Rat
+    rel = W.PDB
+    wfn = ctx.py.func(rel, "PDBTrajectoryFile.write")
+    q = "PDBTrajectoryFile.write / PdbStructure._load"
+    spec = [("A", [("ALA", 5, [("N", "N"), ("CA", "C")]), ("GLYX", 6, [("C", "C"), ("HA12", "H")])]), ("", [("HOH", 1, [("O", "O")]), ("CL", 2, [("CL", "Cl")])])]
+    L = [Rat(Poly.var("L%d" % k)) for k in range(3)]
+    A = [Rat(Poly.var("A%d" % k)) for k in range(3)]
+    for cell in (True, False):
+        cdesc = "with a cell" if cell else "without a cell"
+        try:
+            root = W.new_root()
+            top = W.pdb_topology(spec)
+            n_at = len(top.atoms)
+            xs = [Ten.sym("x%d" % f, (n_at, 3)) for f in range(2)]
+            lines, me = W.pdb_written(ctx, top, xs, root, lengths=L if cell else None, angles=A if cell else None)
+            rec = W.pdb_loaded(ctx, lines, root)
+        except Raised as e:
+            ctx.violated("C01-R8", wfn, rel, q, "two models written and loaded (%s)" % cdesc, "refused: %s" % (e.exc or e))
+            continue
+        except PUnsupported as e:
+            ctx.undecided("C01-R8", wfn, rel, q, "two models written and loaded (%s)" % cdesc, "not evaluable: %s" % e)
+            continue
+        why = []
+        if [len(m_) for m_ in rec["models"]] != [n_at, n_at]:
+            why.append("%s atoms per model are loaded from 2 models of %d atoms" % ([len(m_) for m_ in rec["models"]], n_at))
+        else:
+            for f_, m_ in enumerate(rec["models"]):
+                for a_, at in zip(m_, top.atoms):
+                    pos = a_.location[1] if getattr(a_, "location", None) else None
+                    want = [xs[f_].data[at.index * 3 + k_] for k_ in range(3)]
+                    if not (isinstance(pos, Ten) and len(pos.data) == 3 and all(T.same_value(p_, w_) for p_, w_ in zip(pos.data, want))):
+                        why.append("model %d atom %d: position read back as %s" % (f_, at.index, repr(getattr(pos, "data", pos))[:60]))
+                    chain_letter = at.residue.chain.chain_id[:1] or "AB"[at.residue.chain.index]
+                    ident = (a_.name_with_spaces.strip(), a_.residue_name, a_.chain_id, a_.residue_number, a_.element_symbol.upper(), a_.segment_id)
+                    wanti = (at.name[:4], at.residue.name[:3], chain_letter, at.residue.resSeq, at.element.symbol.upper(), at.segment_id)
+                    if ident != wanti:
+                        why.append("model %d atom %d is read back as %s, written from %s" % (f_, at.index, ident, wanti))
+        ctx.decide(not why, "C01-R8", wfn, rel, q, "2 models x %d atoms in 2 chains: positions, atom / residue names, residue numbers, chain letters, elements come back (%s)" % (n_at, cdesc), "", "; ".join(why[:2]))
+        if cell:
+            okc = isinstance(rec["lengths"], tuple) and isinstance(rec["angles"], tuple) and len(rec["lengths"]) == 3 and all(T.same_value(a_, b_) for a_, b_ in zip(rec["lengths"] + rec["angles"], L + A))
+            ctx.decide(okc, "C01-R8", wfn, rel, q, "CRYST1: a, b, c, alpha, beta, gamma come back as written", "", "the loader reads the cell as %s / %s" % (rec["lengths"], rec["angles"]))
+        else:
+            ctx.decide(rec["lengths"] is None and rec["angles"] is None, "C01-R8", wfn, rel, q, "no cell written: none loaded", "", "a cell %s is loaded from a file written without one" % (rec["lengths"],))
+        # ---- published columns (wwPDB format 3.3), from the pieces printed
+        atom_lines = [l_ for l_ in lines if isinstance(l_, TText) and l_.startswith("ATOM")]
+        bad = []
+        for l_ in atom_lines:
+            try:
+                tw = l_.total_width() - 1
+            except PUnsupported:
+                tw = None
+            col, cols = 0, {}
+            for p_ in l_.parts:
+                w_ = pwidth(p_)
+                if w_ is None:
+                    break
+                if isinstance(p_, FVal) and isinstance(p_.value, Rat) and p_.value.const_value() is None:
+                    cols[col] = (w_, p_.spec)
+                col += w_
+            if tw != 80 or cols != {30: (8, "8.3f"), 38: (8, "8.3f"), 46: (8, "8.3f")}:
+                bad.append("ATOM record of %s columns with coordinate fields %s" % (tw, sorted(cols.items())))
+        ctx.decide(bool(atom_lines) and not bad, "C01-R8", wfn, rel, q, "ATOM records: 80 columns, x y z as 8.3 at columns 31-38, 39-46, 47-54 (%s)" % cdesc, "%d records" % len(atom_lines), (bad or ["no ATOM record"])[0])
+        if cell:
+            cr = [l_ for l_ in lines if isinstance(l_, TText) and l_.startswith("CRYST1")]
+            lay = []
+            if len(cr) == 1:
+                col = 0
+                for p_ in cr[0].parts:
+                    w_ = pwidth(p_)
+                    if w_ is None:
+                        break
+                    if isinstance(p_, FVal) and isinstance(p_.value, Rat):
+                        lay.append((col, p_.spec))
+                    col += w_
+            ctx.decide(lay == [(6, "9.3f"), (15, "9.3f"), (24, "9.3f"), (33, "7.2f"), (40, "7.2f"), (47, "7.2f")], "C01-R8", wfn, rel, q, "CRYST1 record: 9.3 x 3 from column 7, 7.2 x 3 from column 34", "",
+                       "%d CRYST1 records, fields at %s" % (len(cr), lay))
